@@ -831,6 +831,9 @@ func (c *VCtx) asTerm(v Val) *Term {
 	case *FnVal:
 		if x.term == nil {
 			x.term = c.fresh("fn", SRef)
+			if x.Fn != nil {
+				x.term.GT = x.Fn.Signature
+			}
 			c.fact(Not(Eq(x.term, Null)))
 			c.fnTerm(x)
 		}
